@@ -211,10 +211,27 @@ def synthetic(rnd, enduse=None, plant=None, econ=None, resmodel=None, life=None,
             add('Heat Pump Capital Cost', dec(rnd, 1, 8, 2))
     if plant == 7:
         add('District Heating Demand Option', 1)
-        add('District Heating Number of Housing Units', rnd.randint(3000, 12000))
-        add('District Heating Weather Data File Name', 'Examples/cornell_weather_data_2015.csv')
         add('District Heating Demand File Name', 'Examples/cornell_heat_demand.csv')
-        add('District Heating Summer Indoor Temperature Setpoint', 20)
+        add('District Heating Demand Data Time Resolution', 1)
+        add('District Heating Demand Data Column Number', 2)
+        add('Peaking Fuel Cost Rate', dec(rnd, 0.02, 0.05, 4))
+        add('Peaking Boiler Efficiency', dec(rnd, 0.7, 0.95, 2))
+        add('District Heating Piping Cost Rate', dec(rnd, 800, 1600, 0))
+        how = rnd.choice(['total', 'piping', 'road', 'population', 'units', 'default'])
+        if how == 'total':
+            add('Total District Heating Network Cost', dec(rnd, 2, 20, 1))
+        elif how == 'piping':
+            add('District Heating Network Piping Length', dec(rnd, 2, 20, 1))
+        elif how == 'road':
+            add('District Heating Road Length', dec(rnd, 2, 20, 1))
+        elif how == 'population':
+            add('District Heating Land Area', dec(rnd, 2, 30, 1))
+            add('District Heating Population', rnd.randint(500, 60000))
+        elif how == 'units':
+            add('District Heating Land Area', dec(rnd, 2, 30, 1))
+            add('Number of Housing Units', rnd.randint(300, 20000))
+        if rnd.random() < 0.3:
+            add('District Heating O&M Cost', dec(rnd, 0.1, 2, 2))
     # (the report writer crashes on an overpressure profile under the impedance model: not an accepted input)
     if opts.get('overpressure', rnd.random() < 0.2) and not impedance:
         add('Overpressure Percentage', dec(rnd, 100, 180, 0))
